@@ -596,10 +596,10 @@ class Forcing(BaseForce):
         if self.scaled["v"]:
             V = self.add_offset["v"] + self.scale_factor["v"] * V
 
-        # If necessary put U,V = zero on land and land boundaries
-        # Stay as float32
-        np.multiply(U, self.grid.Mu, out=U)
-        np.multiply(V, self.grid.Mv, out=V)
+        # Put U,V = zero on land and land boundaries, whatever the file holds
+        # there (nan or fill values). Stay as float32
+        U[:, self.grid.Mu == 0] = 0
+        V[:, self.grid.Mv == 0] = 0
         return U, V
 
     def _read_field(self, name: str, n: int) -> Field:
